@@ -128,8 +128,12 @@ C17(t) ==
   /\ Chk(got \subseteq want, "C17|" \o t.op \o "|untouched-page-dirty", <<got \ want, t.out.touched>>)
   /\ Chk(t.out.dirty_req = <<>>, "C17|" \o t.op \o "|request-page-dirty", t.out.dirty_req)
 
+\* beyond the listed properties (reported as EXTRA lines, never as violations): the MetricsHook protocol
+Hooks(t) == LET h == t.x.hooks IN
+  IF h.collect = h.release /\ h.collect <= 1 /\ h.init_params <= h.collect THEN TRUE
+  ELSE PrintT(<<"EXTRA", "hook-protocol|collect-release-unbalanced", l, h>>)
 Drift(t) == LET p == t.x.pred IN
-  IF p.nreply = t.out.nmsgs /\ p.ret = t.out.retc /\ p.fscalls = Len(NonRemap(t)) THEN TRUE
+  IF p.nreply = t.out.nmsgs /\ p.ret = t.out.retc /\ p.fscalls = Len(NonRemap(t)) /\ p.hooks = t.x.hooks.collect THEN TRUE
   ELSE PrintT(<<"DRIFT", l, t.x.cls, p, t.out.ret, t.out.nmsgs>>)
 
 (* ---------------- C03: notification messages ---------------- *)
@@ -156,8 +160,8 @@ Step ==
   /\ l <= Len(Rec)
   /\ LET t == Rec[l] IN
      TRUE = (CASE t.e = "Tx" /\ t.gen = "wf" -> (C01(t) /\ C02(t) /\ C03(t) /\ C17(t))
-               [] t.e = "Tx" /\ t.gen = "class" -> (C01(t) /\ C17(t) /\ Drift(t))
-               [] t.e = "Tx" -> (C01(t) /\ C17(t))
+               [] t.e = "Tx" /\ t.gen = "class" -> (C01(t) /\ C17(t) /\ Drift(t) /\ Hooks(t))
+               [] t.e = "Tx" -> (C01(t) /\ C17(t) /\ Hooks(t))
                [] t.e = "Notify" -> Notify(t)
                [] OTHER -> TRUE)
   /\ l' = l + 1
